@@ -266,9 +266,8 @@ def whole_query(sess, which, n, what):
 
     for p in paths:
         claim, wrong = claim_of(sp, p.result, ref_whole(sp, bs))
-        if wrong is not None and n:
-            _, ok = result_as_bv(sp, p.result)
-            out, _ = result_as_bv(sp, p.result)
+        if wrong is not None and n:       # a more telling wrong oracle: the reference with a polynomial bit flipped
+            out, ok = result_as_bv(sp, p.result)
             wrong = z3.And(ok, out == ref_whole(sp, bs, poly=sp["poly"] ^ 2))
         sess.prove(key, claim, assume=p.assume, defs=p.interp.defs, side=p.interp.side, wrong=wrong,
                    vals=vals, detail=detail, what=what)
